@@ -49,6 +49,8 @@ var (
 	nemKind = flag.String("nemkind", "all", "all | restarts (only graceful restarts of followers, in quick succession)")
 	mixF    = flag.String("mix", "all", "all | nonidem (mostly INCR / HINCRBY / LPUSH / LPOP)")
 	staleTO = flag.Duration("stalebarrier", 0, "directed scenario 'late read-index answer completes a later round' (0 = skip): the read-index round timeout of the node (5s unless changed)")
+	newLead = flag.Bool("newleader", false, "directed scenario 'read barrier on a freshly elected leader' (in-process only)")
+	abortB  = flag.Bool("abortbatch", false, "directed scenario 'SETEX with ttl 0 right after batchable writes, applied in one batch by a replica that catches up'")
 	lossDur = flag.Duration("lossdur", 0, "directed scenario 'follower forgets acknowledged entries' (0 = skip): writes through the leader for this long")
 	partF   = flag.Bool("partitions", false, "nemesis also cuts raft links between replicas (thorough tier)")
 	minB    = flag.Int("minb", 24, "min operations per key before it is retired")
@@ -607,6 +609,12 @@ func main() {
 		if *staleTO > 0 && *mode == "inproc" {
 			m.Directed = append(m.Directed, runStaleBarrier(c, w, *staleTO)...)
 		}
+		if *newLead && *mode == "inproc" {
+			m.Directed = append(m.Directed, runNewLeaderBarrier(c, w)...)
+		}
+		if *abortB {
+			m.Directed = append(m.Directed, runAbortBatch(c, w)...)
+		}
 		if *lossDur > 0 {
 			m.Directed = append(m.Directed, runForgetAcked(c, w, *seed, *lossDur)...)
 		}
@@ -995,6 +1003,161 @@ func runStaleBarrier(c *cluster, w *workload, roundTO time.Duration) []nemEvent 
 	wg.Wait()
 	for i := range lc.conns {
 		lc.drop(i)
+	}
+	_, ok := c.waitSettled(30 * time.Second)
+	ev(fmt.Sprintf("settled=%v", ok), nil)
+	return evs
+}
+
+func dirClient(c *cluster, id int) *client {
+	return &client{id: id, addrs: c.addrs, conns: make([]*goredis.Conn, nReplica), rng: rand.New(rand.NewSource(int64(id))), opTO: 12 * time.Second}
+}
+
+// runNewLeaderBarrier is a fixed schedule for the read barrier on a FRESHLY ELECTED leader: DEL k is acknowledged by
+// the old leader; the replica T has the entry in its log but does not learn that it is committed (messages carrying a
+// newer commit index are dropped at T); leadership is transferred to T while the acknowledgements of its appends are
+// held back, so T cannot commit an entry of its own term; SETNX k through T: a leader that has not committed in
+// its term must not answer read-index requests, so SETNX must not be answered 0 from T's store that still holds k.
+func runNewLeaderBarrier(c *cluster, w *workload) []nemEvent {
+	var evs []nemEvent
+	ev := func(what string, err error) {
+		e := nemEvent{At: nowUs(), What: what}
+		if err != nil {
+			e.Err = err.Error()
+		}
+		evs = append(evs, e)
+	}
+	l := c.waitLeader(10 * time.Second)
+	if l < 0 {
+		ev("newleader-barrier skipped: no leader", nil)
+		return evs
+	}
+	t := (l + 1) % nReplica
+	g := c.reps[t].Gate()
+	if g == nil {
+		ev("newleader-barrier skipped: no gate", nil)
+		return evs
+	}
+	lc, tc := dirClient(c, 93), dirClient(c, 94)
+	k := w.newObject("kv")
+	do := func(cl *client, target int, op string) opRec {
+		rec, sent := cl.do(target, k.key, op)
+		if sent {
+			w.record(k, rec)
+		}
+		return rec
+	}
+	heal := func() {
+		g.SetCommitCeiling(0)
+		g.SetHold(0, nil)
+		g.Release(0, true, 0)
+	}
+	if rec := do(lc, l, fmt.Sprintf("set:%d", w.uniqL())); rec.Ret < 0 {
+		ev("newleader-barrier skipped: SET failed", nil)
+		return evs
+	}
+	c.waitSettled(5 * time.Second)
+	st, _ := c.reps[l].Status()
+	g.SetCommitCeiling(st.Commit)
+	ev(fmt.Sprintf("replica %d stops learning commits above %d", t, st.Commit), nil)
+	if rec := do(lc, l, "del"); rec.Ret < 0 {
+		heal()
+		ev("newleader-barrier skipped: DEL failed", nil)
+		return evs
+	}
+	time.Sleep(200 * time.Millisecond) // T receives the entry (its append carries the old commit index)
+	if ts, _ := c.reps[t].Status(); ts.Applied > st.Commit {
+		heal()
+		ev("newleader-barrier skipped: T already applied the DEL", nil)
+		return evs
+	}
+	g.SetHold(0, []raftpb.MessageType{raftpb.MsgAppResp})
+	err := c.reps[l].TransferTo(uint64(t + 1))
+	ev(fmt.Sprintf("transfer %d->%d with append acknowledgements to %d held", l, t, t), err)
+	lead := false
+	for i := 0; i < 100 && !lead; i++ {
+		ts, _ := c.reps[t].Status()
+		lead = ts.Lead
+		if !lead {
+			time.Sleep(10 * time.Millisecond)
+		}
+	}
+	if lead {
+		go func() {
+			time.Sleep(1500 * time.Millisecond)
+			heal()
+		}()
+		rec := do(tc, t, fmt.Sprintf("setnx:%d", w.uniqL()))
+		ev(fmt.Sprintf("SETNX through the new leader -> %s%s", rec.Res, rec.Err), nil)
+		time.Sleep(100 * time.Millisecond)
+	} else {
+		ev("newleader-barrier skipped: T did not become leader", nil)
+	}
+	heal()
+	for _, cl := range []*client{lc, tc} {
+		for i := range cl.conns {
+			cl.drop(i)
+		}
+	}
+	_, ok := c.waitSettled(30 * time.Second)
+	ev(fmt.Sprintf("settled=%v", ok), nil)
+	return evs
+}
+
+// runAbortBatch is a fixed schedule for the write batch of the apply loop: replica F is stopped; ONE client sends,
+// through the leader and one after the other, groups of batchable writes on two fresh keys (SET a, SET b,
+// both acknowledged) each directly followed by `SETEX c 0 v` (refused: ttl 0; sent raw, it is not an operation of
+// the specification and never takes effect); the leader applies the entries one Ready at a time; F is restarted and
+// applies the whole backlog in large applyEntries calls. A command that cannot succeed must not be admitted to the
+// open batch: its abort would throw away the acknowledged writes collected before it on F only.
+func runAbortBatch(c *cluster, w *workload) []nemEvent {
+	var evs []nemEvent
+	ev := func(what string, err error) {
+		e := nemEvent{At: nowUs(), What: what}
+		if err != nil {
+			e.Err = err.Error()
+		}
+		evs = append(evs, e)
+	}
+	l := c.waitLeader(10 * time.Second)
+	if l < 0 {
+		ev("abort-batch skipped: no leader", nil)
+		return evs
+	}
+	f, o := (l+1)%nReplica, (l+2)%nReplica
+	cl := dirClient(c, 95)
+	_ = o
+	ev(fmt.Sprintf("stop %d", f), c.reps[f].CloseNS())
+	time.Sleep(300 * time.Millisecond)
+	refused, odd := 0, 0
+	for i := 0; i < 25; i++ {
+		a, b := w.newObject("kv"), w.newObject("kv")
+		for _, x := range []struct {
+			o  *object
+			op string
+		}{{a, fmt.Sprintf("set:%d", w.uniqL())}, {b, fmt.Sprintf("set:%d", w.uniqL())}} {
+			if rec, sent := cl.do(l, x.o.key, x.op); sent {
+				w.record(x.o, rec)
+			}
+		}
+		cn, err := cl.conn(l)
+		if err != nil {
+			continue
+		}
+		cn.SetReadDeadline(time.Now().Add(8 * time.Second))
+		if _, err := cn.Do("setex", nsBase+":lin:ttl0-"+fmt.Sprint(i), 0, "x"); err != nil {
+			refused++
+		} else {
+			odd++
+		}
+	}
+	sl, _ := c.reps[l].Status()
+	sf, _ := c.reps[f].Status()
+	ev(fmt.Sprintf("25 groups written through %d; SETEX ttl 0 refused %d times, accepted %d times; applied: leader %d, stopped replica %d",
+		l, refused, odd, sl.Applied, sf.Applied), nil)
+	ev(fmt.Sprintf("restart %d", f), c.reps[f].OpenNS())
+	for i := range cl.conns {
+		cl.drop(i)
 	}
 	_, ok := c.waitSettled(30 * time.Second)
 	ev(fmt.Sprintf("settled=%v", ok), nil)
